@@ -1,6 +1,7 @@
 SPECIFICATION Spec
 CONSTANTS
   Scen1 <- ScenC1
+  ScenBusy <- NoBusy
   Scen2 <- ScenC2
   ClearChoices = {TRUE, FALSE}
   Installs = {TRUE}
